@@ -194,7 +194,8 @@ func (g *HTTPGroup) createConnByEndpoint(endpoint, remoteAddr string) (net.Conn,
 	g.mu.RUnlock()
 
 	if f == nil {
-		return nil, fmt.Errorf("no CreateConnFunc for endpoint [%s] in group [%s]", endpoint, g.group)
+		// the chosen endpoint has left the group since it was chosen, use another member
+		return g.createConn(remoteAddr)
 	}
 	return f(remoteAddr)
 }
